@@ -2,11 +2,13 @@
 (a) back-off recurrence lifted from the AST of HomeKitConnection._reconnect into z3 reals (one-step inductive lemma);
 (b) the real _reconnect coroutine hand-driven for K attempts whose outcomes, host exclusions, wake-ups and close requests
     are symbolic selectors;  (c) the connector guards from an arbitrary flag state;  (d) _get_connect_hosts.
-Not decided: concurrent triggers, ensure_connection's shield and the caller's 10 s wait (need a running loop)."""
+(e) the waiting caller (IpPairing._ensure_connected / ensure_connection) hand-driven: shield, 10 s wait, error translation.
+Not decided: truly concurrent triggers, the happy-eyeballs inner loop, wall-clock behaviour (need a running loop)."""
 import ast
 import asyncio
 
 import aiohomekit.controller.ip.connection as real_ipc
+import aiohomekit.controller.ip.pairing as real_ipp
 import aiohomekit.exceptions as X
 import z3
 
@@ -17,6 +19,7 @@ from . import common
 
 PROP = "C10"
 IPC = "aiohomekit.controller.ip.connection"
+IPP = "aiohomekit.controller.ip.pairing"
 
 
 def copies(mutate=None):
@@ -451,6 +454,206 @@ def guard_unit(M):
     return h
 
 
+# ------------------------------------------------------------------ (e) the waiting caller
+class WFut:
+    """asyncio.Future's state machine without a loop (also stands for the connector task)"""
+
+    def __init__(self, name):
+        self.name, self.state, self._r, self._e, self.cancel_calls = name, "PENDING", None, None, 0
+
+    def done(self):
+        return self.state != "PENDING"
+
+    def cancelled(self):
+        return self.state == "CANCELLED"
+
+    def set_result(self, r):
+        self.state, self._r = "FINISHED", r
+
+    def set_exception(self, e):
+        self.state, self._e = "FINISHED", e
+
+    def cancel(self, msg=None):
+        self.cancel_calls += 1
+        if self.state != "PENDING":
+            return False
+        self.state = "CANCELLED"
+        return True
+
+    def result(self):
+        if self._e is not None:
+            raise self._e
+        return self._r
+
+    def exception(self):
+        return self._e
+
+    def __await__(self):
+        if self.state == "PENDING":
+            yield self
+        if self.state == "CANCELLED":
+            raise asyncio.CancelledError()
+        if self._e is not None:
+            raise self._e
+        return self._r
+
+    __iter__ = __await__
+
+
+class WaitEnv:
+    """asyncio.shield / asyncio.timeout / task creation of the modules under test replaced by loop-free stand-ins:
+    shield(inner) returns a separate outer future (cancelling the outer one leaves the inner one alone - asyncio's contract);
+    asyncio_timeout turns the Task.cancel() of its expiry into TimeoutError on exit"""
+
+    def __init__(self, M, P):
+        self.M, self.P = M, P
+        self.shields, self.created, self.timeouts = [], [], []
+
+    def __enter__(self):
+        M, P, env = self.M, self.P, self
+        self.saved = (M.asyncio, M.async_create_task, P.asyncio_timeout)
+
+        class AsyncioFacade:
+            def __getattr__(self, k):
+                return getattr(asyncio, k)
+
+            def shield(self, inner):
+                outer = WFut("shield")
+                env.shields.append((inner, outer))
+                return outer
+
+        class Timeout:
+            def __init__(self, delay):
+                self.delay, self.fired = delay, False
+                env.timeouts.append(self)
+
+            async def __aenter__(self):
+                return self
+
+            async def __aexit__(self, et, ev, tb):
+                if self.fired and et is not None and issubclass(et, asyncio.CancelledError):
+                    raise asyncio.TimeoutError() from ev
+                return False
+
+        def create(coro):
+            coro.close()
+            t = WFut("connector")
+            env.created.append(t)
+            return t
+
+        M.asyncio, M.async_create_task, P.asyncio_timeout = AsyncioFacade(), create, Timeout
+        return self
+
+    def __exit__(self, *a):
+        self.M.asyncio, self.M.async_create_task, self.P.asyncio_timeout = self.saved
+        return False
+
+    def settle(self):
+        """what the loop does for a shield: the outer future follows the inner one"""
+        for inner, outer in self.shields:
+            if inner.done() and not outer.done():
+                if inner.cancelled():
+                    outer.cancel()
+                elif inner._e is not None:
+                    outer.set_exception(inner._e)
+                else:
+                    outer.set_result(inner._r)
+
+
+WAIT_EVENTS = ["caller-cancelled", "caller-timeout", "connector-connects", "connector-returns-unconnected", "connector-authentication-error"]
+
+
+def waiting_caller_unit(M, P):
+    """IpPairing._ensure_connected -> HomeKitConnection.ensure_connection: the caller gets its answer, the connector survives"""
+    def h(ex):
+        level = ex.choice("entry", ["pairing._ensure_connected", "connection.ensure_connection"])
+        conn_state = ex.choice("connector", ["none", "running", "finished"])
+        connected = ex.fresh_bool("connected")
+        last_error = ex.choice("last_connector_error", ["none", "timeout", "connection-refused"])
+        event = ex.choice("event", WAIT_EVENTS)
+        c = new_conn(M, ["10.0.0.1"])
+        c._last_connector_error = {"none": None, "timeout": asyncio.TimeoutError(), "connection-refused": ConnectionRefusedError("refused")}[last_error]
+        if connected:
+            c.transport, c.protocol = object(), object()
+        existing = None
+        if conn_state != "none":
+            existing = c._connector = WFut("connector")
+            if conn_state == "finished":
+                existing.set_result(None)
+        p = object.__new__(P.IpPairing)
+        p._shutdown, p.connection = False, c
+        avail = []
+        p._callback_availability_changed = avail.append
+        with WaitEnv(M, P) as env:
+            coro = p._ensure_connected() if level.startswith("pairing") else c.ensure_connection()
+            try:
+                awaited = coro.send(None)
+            except StopIteration:
+                ex.tag("no-wait")
+                ex.require(connected, "the caller returns at once only when the connection is up")
+                ex.require(not env.created, "no connector is started while connected")
+                return ex.observe("returned-at-once")
+            except Exception as e:  # noqa
+                ex.require(False, "waiting for the connection does not fail before anything happened (%s)" % type(e).__name__)
+                return ex.observe("raised-at-once")
+            ex.require(not connected, "a connected caller does not wait")
+            connector = c._connector
+            ex.require(connector is not None and len(env.created) <= 1, "exactly one connector serves the waiting caller")
+            if conn_state == "running":
+                ex.require(connector is existing and not env.created, "a running connector is reused, not duplicated")
+            ex.require(awaited is not connector, "the caller does not wait on the connector task itself (a caller that gives up would cancel it)")
+            # ---- what happens next
+            outcome = None
+            try:
+                if event in ("caller-cancelled", "caller-timeout"):
+                    if event == "caller-timeout":
+                        ex.assume(level.startswith("pairing") and env.timeouts)
+                        env.timeouts[-1].fired = True
+                    awaited.cancel()  # Task.cancel(): the future the task waits on is cancelled ...
+                    env.settle()
+                    coro.send(None)  # ... and the task is resumed
+                    outcome = ("still-waiting", None)
+                else:
+                    if event == "connector-connects":
+                        c.transport, c.protocol = object(), object()
+                        connector.set_result(None)
+                    elif event == "connector-returns-unconnected":
+                        connector.set_result(None)
+                    else:
+                        connector.set_exception(X.AuthenticationError("step 3"))
+                    env.settle()
+                    coro.send(None)
+                    outcome = ("still-waiting", None)
+            except StopIteration:
+                outcome = ("returned", None)
+            except asyncio.CancelledError:
+                outcome = ("cancelled", None)
+            except Exception as e:  # noqa
+                outcome = ("raised", e)
+            ex.tag(event)
+            ex.require(connector.cancel_calls == 0 and not connector.cancelled(), "a caller that stops waiting does not abort the background attempt")
+            kind, exc = outcome
+            if event == "caller-cancelled":
+                ex.require(kind == "cancelled", "a cancelled caller ends with CancelledError")
+            elif event == "caller-timeout":
+                ex.require(kind == "raised" and isinstance(exc, X.AccessoryDisconnectedError), "after the bounded wait the caller gets a disconnection error")
+                if kind == "raised" and last_error == "connection-refused":
+                    ex.require("refused" in str(exc) and "ConnectionRefusedError" in str(exc), "the disconnection error names the connector's last error")
+            elif event == "connector-connects":
+                ex.require(kind == "returned", "the caller returns once the connector has connected")
+                if level.startswith("pairing"):
+                    ex.require(avail == [True], "availability listeners are told the connection is back")
+            elif event == "connector-returns-unconnected":
+                if level.startswith("pairing"):
+                    ex.require(kind == "raised" and isinstance(exc, X.AccessoryDisconnectedError), "returning without a connection is reported as a disconnection error")
+                else:
+                    ex.require(kind == "returned", "ensure_connection returns when the connector has finished")
+            else:
+                ex.require(kind == "raised" and isinstance(exc, X.AuthenticationError), "the connector's authentication error reaches the waiting caller")
+            return ex.observe([kind, type(exc).__name__ if exc is not None else None])
+    return h
+
+
 # ------------------------------------------------------------------ (d) hosts
 def hosts_unit(M):
     def h(ex):
@@ -474,6 +677,7 @@ def hosts_unit(M):
 
 def build(tier, mutate=None):
     C = copies(mutate)
+    CP = load(IPP, deps={IPC: C}, src_transform=(mutate or {}).get(IPP), symbolic=False)
     R = real_ipc
     units = []
     plan = [(3, 1), (3, 2)] if tier == "quick" else [(2, 2)] if tier == "canary" else [(3, 1), (4, 2), (3, 3)]
@@ -487,11 +691,17 @@ def build(tier, mutate=None):
     units.append(Unit("guards/one-call-from-arbitrary-state", guard_unit(C), guard_unit(R), split=True,
                       bounds={"call": CALLS, "flags": "closing, closed, transport, protocol, connector state, reconnect future state"},
                       regions=["woken", "restarted"]))
+    units.append(Unit("waiting-caller/ensure_connection", waiting_caller_unit(C, CP), waiting_caller_unit(R, real_ipp), split=True,
+                      bounds={"entry": "pairing._ensure_connected / connection.ensure_connection", "connector": "none / running / finished", "event": WAIT_EVENTS,
+                              "last connector error": "none / timeout / connection refused"},
+                      regions=["no-wait"] + WAIT_EVENTS))
     units.append(Unit("hosts/_get_connect_hosts", hosts_unit(C), hosts_unit(R), bounds={"hosts": 3, "exclusions": "every subset"}, regions=["all-excluded"]))
     return units
 
 
 CANARIES = [
+    ("shield dropped", {IPC: lambda s: s.replace("            await asyncio.shield(self._connector)", "            await self._connector")}, lambda n: n.startswith("waiting-caller")),
+    ("timeout reported as plain TimeoutError", {IPP: lambda s: s.replace("        except asyncio.TimeoutError:\n            last_connector_error = connection.last_connector_error", "        except ZeroDivisionError:\n            last_connector_error = connection.last_connector_error")}, lambda n: n.startswith("waiting-caller")),
     ("backoff skipped after any wrong pairing id", {IPC: lambda s: s.replace("                    if len(self._pair_verify_failed_hosts) > failed_host_count and any(\n                        _normalize_host(host) not in self._pair_verify_failed_hosts for host in self.hosts\n                    ):", "                    if True:")}, lambda n: n.startswith("reconnect")),
     ("unexpected exception ends the loop", {IPC: lambda s: s.replace('                except Exception as ex:\n                    self._last_connector_error = ex\n                    logger.exception(', '                except KeyError as ex:\n                    self._last_connector_error = ex\n                    logger.exception(')}, lambda n: n.startswith("reconnect")),
     ("second connector allowed", {IPC: lambda s: s.replace("        if (self._connector and not self._connector.done()) or self.is_connected:\n            return", "        if self.is_connected:\n            return")}, lambda n: n.startswith("guards")),
@@ -501,7 +711,8 @@ CANARIES = [
 ASSUMPTIONS = [
     "PARTIAL: (a) recurrence lemma over the reals for the back-off expression lifted from the source, (b) the real _reconnect coroutine hand-driven (nothing it awaits ever suspends: _connect_once, asyncio.sleep, interrupt, create_future are stubs; time is the sum of requested sleeps), (c) one guard call from an arbitrary flag state, (d) _get_connect_hosts",
     "in (b)-(d) every symbolic variable is a discrete selector: the solver contributes feasibility pruning and the exhaustiveness account over the bounded history space; the guarantee equals bounded exhaustive exploration of fault histories of the real coroutine",
-    "NOT decided: 'at most one attempt in progress' under truly concurrent triggers, ensure_connection's shield, the caller's 10 s wait and error translation, the happy-eyeballs inner loop, wall-clock behaviour (they need asyncio.timeout/shield on a running loop)",
+    "waiting caller (hand-driven): asyncio.shield / asyncio.timeout / task creation are loop-free stand-ins with asyncio's documented contract (cancelling the future returned by shield leaves the inner task alone; asyncio.timeout turns the Task.cancel() of its expiry into TimeoutError on exit; Task.cancel() cancels the awaited future and resumes the task); one event after the caller starts waiting",
+    "NOT decided: 'at most one attempt in progress' under truly concurrent triggers, the happy-eyeballs inner loop, wall-clock behaviour (they need a running loop)",
 ]
 
 
